@@ -39,5 +39,9 @@ func NormalizeSlotIndex(index int, slotSize int) int {
 		index = -index
 	}
 	index %= slotSize
+	if index < 0 {
+		// -MinInt overflows back to MinInt: fold the negative remainder into range
+		index += slotSize
+	}
 	return index
 }
